@@ -1,14 +1,17 @@
-"""JSON.parse for the JSON global object (ECMAScript 25.5).
+"""JSON.parse and JSON.stringify for the JSON global object (ECMAScript 25.5).
 
 The host ``json`` module is not used: it accepts more than the JSON grammar
-(``NaN``, ``Infinity``), keeps integers of any size exact, and reports errors
-with a host exception.
+(``NaN``, ``Infinity``), keeps integers of any size exact, reports errors
+with a host exception, escapes non-ASCII characters and prints numbers the
+Python way (``1.0``, ``NaN``, ``1e-07``).
 """
 
+import math
 import re
+from typing import List, Optional
 
-from .errors import JSSyntaxError
-from .values import NULL, JSArray, JSObject, JSValue
+from .errors import JSSyntaxError, JSTypeError
+from .values import NULL, JSArray, JSObject, JSValue, js_typeof, to_string
 
 _WHITESPACE = re.compile(r"[ \t\n\r]*")
 _NUMBER = re.compile(r"-?(?:0|[1-9][0-9]*)(\.[0-9]+)?([eE][+-]?[0-9]+)?")
@@ -177,3 +180,77 @@ def json_parse(text: str) -> JSValue:
         return _JSONParser(text).parse()
     except RecursionError:
         raise JSSyntaxError("JSON.parse: structure is nested too deeply") from None
+
+
+# A surrogate pair written as two code points stays as it is; what else matches is escaped
+_QUOTE_SPECIAL = re.compile(r'[\ud800-\udbff][\udc00-\udfff]|["\\\x00-\x1f\ud800-\udfff]')
+_QUOTE_ESCAPES = {
+    '"': '\\"',
+    "\\": "\\\\",
+    "\b": "\\b",
+    "\f": "\\f",
+    "\n": "\\n",
+    "\r": "\\r",
+    "\t": "\\t",
+}
+
+
+def _quote_special(match: "re.Match[str]") -> str:
+    ch = match.group(0)
+    if len(ch) == 2:
+        return ch
+    return _QUOTE_ESCAPES.get(ch) or "\\u%04x" % ord(ch)
+
+
+def quote_json_string(value: str) -> str:
+    """QuoteJSONString: only quote, backslash, C0 controls and lone surrogates are escaped."""
+    return '"' + _QUOTE_SPECIAL.sub(_quote_special, value) + '"'
+
+
+class _JSONSerializer:
+    """SerializeJSONProperty and friends; ``None`` stands for an undefined result."""
+
+    def __init__(self) -> None:
+        self.stack: List[JSObject] = []
+
+    def serialize(self, value: JSValue) -> Optional[str]:
+        if value is NULL:
+            return "null"
+        if value is True:
+            return "true"
+        if value is False:
+            return "false"
+        if isinstance(value, str):
+            return quote_json_string(value)
+        if isinstance(value, (int, float)):
+            return to_string(value) if math.isfinite(value) else "null"
+        if isinstance(value, JSObject) and js_typeof(value) == "object":
+            if any(entry is value for entry in self.stack):
+                raise JSTypeError("Converting circular structure to JSON")
+            self.stack.append(value)
+            try:
+                if isinstance(value, JSArray):
+                    return self.serialize_array(value)
+                return self.serialize_object(value)
+            finally:
+                self.stack.pop()
+        return None  # undefined, functions
+
+    def serialize_array(self, array: JSArray) -> str:
+        # An element without a JSON representation is written as null
+        items = [self.serialize(element) or "null" for element in array._elements]
+        return "[" + ",".join(items) + "]"
+
+    def serialize_object(self, obj: JSObject) -> str:
+        # A property without a JSON representation is left out
+        members = []
+        for key in obj.keys():
+            text = self.serialize(obj.get(key))
+            if text is not None:
+                members.append(quote_json_string(key) + ":" + text)
+        return "{" + ",".join(members) + "}"
+
+
+def json_stringify(value: JSValue) -> Optional[str]:
+    """JSON.stringify(value): the JSON text, or None when the result is undefined."""
+    return _JSONSerializer().serialize(value)
